@@ -353,6 +353,7 @@ type atom struct {
 	Media string // "", "print", "screen", "all", "print, screen", "tv"
 	Wrap  string // "", or a media list wrapping the statement in @media (random mode)
 	Deep  bool   // importnew/importhere: the imported sheet itself starts with an @import
+	Var   int    // reimport: which arrangement of repeated references to the same sheet
 }
 
 func (a atom) String() string {
@@ -374,6 +375,9 @@ func (a atom) String() string {
 	}
 	if a.Deep {
 		s += " deep"
+	}
+	if a.Var != 0 {
+		s += fmt.Sprintf(" var%d", a.Var)
 	}
 	return s
 }
@@ -470,6 +474,61 @@ func (b *builder) importItem(a atom) *item {
 	return imp
 }
 
+// reimport: the same style sheet A referenced two or three times (by @import in one sheet, through
+// different intermediate sheets, by <link> and @import) with a conflicting sheet B in between; A and B
+// hold one rule each with the same selector and importance. Every reference contributes A's rules
+// again at its own place, so the rule of whichever sheet is referenced last wins the tie.
+func (b *builder) reimport(a atom) {
+	mk := func(name string) *item { // an @import statement with a fresh sheet holding one rule
+		it := &item{Kind: "import", URL: b.url()}
+		it.Items = []*item{b.rule(a, name+"/"+it.URL)}
+		return it
+	}
+	again := func(it *item) *item { return &item{Kind: "import", URL: it.URL, Items: it.Items, Media: it.Media} }
+	via := func(items ...*item) *item { // an @import of a fresh sheet holding the given statements
+		return &item{Kind: "import", URL: b.url(), Items: items}
+	}
+	link := func(it *item) { // <link> to the sheet an @import statement refers to
+		s := &asheet{Link: true, URL: it.URL, Items: it.Items}
+		b.d.Auth = append(b.d.Auth, s)
+	}
+	switch a.Var {
+	case 0: // @import A; @import B; @import A
+		b.newAuthor(false, "")
+		A, B := mk(b.curName), mk(b.curName)
+		*b.cur = append(*b.cur, A, B, again(A))
+	case 1: // A B A B A B: three references each, B last
+		b.newAuthor(false, "")
+		A, B := mk(b.curName), mk(b.curName)
+		*b.cur = append(*b.cur, A, B, again(A), again(B), again(A), again(B))
+	case 2: // through different intermediate sheets: @import C1 (-> A); @import B; @import C2 (-> A)
+		b.newAuthor(false, "")
+		A, B := mk(b.curName), mk(b.curName)
+		*b.cur = append(*b.cur, via(A), B, via(again(A)))
+	case 3: // inside one imported sheet: @import C; C = @import A; @import B; @import A
+		b.newAuthor(false, "")
+		A, B := mk(b.curName), mk(b.curName)
+		*b.cur = append(*b.cur, via(A, B, again(A)))
+	case 4: // <link A> <style>@import B</style> <link A>
+		A := mk("link")
+		link(A)
+		b.newAuthor(false, "")
+		B := mk(b.curName)
+		*b.cur = append(*b.cur, B)
+		link(A)
+	case 5: // <link A> <link B> <style>@import A</style>
+		A, B := mk("link"), mk("link")
+		link(A)
+		link(B)
+		b.newAuthor(false, "")
+		*b.cur = append(*b.cur, again(A))
+	default: // nested and direct: @import C (-> A); @import B; @import A
+		b.newAuthor(false, "")
+		A, B := mk(b.curName), mk(b.curName)
+		*b.cur = append(*b.cur, via(A), B, again(A))
+	}
+}
+
 // importChain makes `@import "u1";` whose target, at depth 1 (or 2 if a.Deep: u1 = `@import "u2";`),
 // holds `inner`, which is built once the chain's URLs are allocated.
 func (b *builder) importChain(a atom, inner func(where string) []*item) *item {
@@ -539,6 +598,8 @@ func (b *builder) add(a atom) {
 		imp.Items = []*item{b.rule(a, name)}
 		*b.cur = append(*b.cur, imp)
 		b.cur, b.curName = &imp.Items, name
+	case "reimport":
+		b.reimport(a)
 	case "impmedia": // `@media M { rule }` inside an imported sheet (depth 1, or 2 if Deep)
 		b.newAuthor(false, "")
 		m := a.Media
@@ -883,6 +944,7 @@ func fullAlphabet() []atom {
 			}
 		}
 		out = append(out, atom{K: "importinto", Imp: imp, Sels: []int{3}})
+		out = append(out, atom{K: "reimport", Imp: imp, Sels: []int{3}})
 		for f := 0; f < 4; f++ {
 			out = append(out, atom{K: "nest", Imp: imp, NF: []int{f}})
 		}
@@ -892,6 +954,9 @@ func fullAlphabet() []atom {
 		out = append(out, atom{K: "attr", Imp: imp})
 		out = append(out, atom{K: "ph", Imp: imp, Sels: []int{0}})
 		out = append(out, atom{K: "ph", Imp: imp, Sels: []int{3}})
+	}
+	for v := 1; v <= 6; v++ {
+		out = append(out, atom{K: "reimport", Sels: []int{3}, Var: v})
 	}
 	out = append(out, atom{K: "hint"})
 	return out
@@ -916,12 +981,12 @@ func reducedAlphabet() []atom {
 		out = append(out, atom{K: "attr", Imp: imp})
 	}
 	out = append(out, atom{K: "hint"}, atom{K: "ph", Sels: []int{0}}, atom{K: "importinto", Sels: []int{2}},
-		atom{K: "impcond", Sels: []int{3}, Media: "print"})
+		atom{K: "impcond", Sels: []int{3}, Media: "print"}, atom{K: "reimport", Sels: []int{3}}, atom{K: "reimport", Sels: []int{2}, Var: 2})
 	return out
 }
 
 func randAtom(r *rng.R) atom {
-	kinds := []string{"ua", "user", "usernew", "style", "link", "same", "same", "importnew", "importhere", "media", "importinto", "impmedia", "impcond",
+	kinds := []string{"ua", "user", "usernew", "style", "link", "same", "same", "importnew", "importhere", "media", "importinto", "impmedia", "impcond", "reimport",
 		"decl", "decl", "nest", "nest", "nest2", "ndecl", "attr", "hint", "ph", "page", "junk"}
 	a := atom{K: rng.Pick(r, kinds...), Imp: r.P(1, 3)}
 	n := 1
@@ -943,6 +1008,8 @@ func randAtom(r *rng.R) atom {
 		a.NF = append(a.NF, r.Intn(len(nForms)))
 	}
 	switch a.K {
+	case "reimport":
+		a.Var = r.Intn(7)
 	case "impmedia", "impcond":
 		a.Media = rng.Pick(r, mediaChoices[1:]...)
 		a.Deep = r.P(1, 2)
@@ -1127,7 +1194,7 @@ func Run(tier string, seed uint64, modelPath, repo, replay string, out *res.Resu
 	}
 	rn := &runner{m: m, out: out, fonts: fonts, seed: seed}
 	out.Rule = "documents = tuples of placement instructions (UA/user/PH sheet rule, <style>, <link>, rule in the current sheet, @import new/in place/entered, @media, " +
-		"@media and conditioned @import INSIDE imported sheets at depth 1 and 2, " +
+		"@media and conditioned @import INSIDE imported sheets at depth 1 and 2, the same sheet referenced 2-3 times (one sheet, via intermediate sheets, <link> and @import) around a conflicting sheet, " +
 		"declaration or nested rule (& / compound / descendant / child) appended to the last rule, depth-2 nesting, style attribute, bgcolor hint) x importance x selector; " +
 		"every declaration has its own colour. quick: ALL ordered pairs of the full alphabet (device print, hints on; pairs with a media condition or an entered import also on device screen; pairs with a hint also hints off) + 5000 random k-tuples (k<=6, " +
 		"selector groups, 21 selectors, 11 nested forms, media lists, @media wrapping, nested @import, @page/junk statements, device print or screen with equal probability, hints on/off); " +
